@@ -43,7 +43,7 @@ func main() {
 			case "upd", "updbls":
 				lines = genE2EUpdate(r.Fork(), mode == "updbls")
 			default:
-				lines = genE2E(r.Fork(), mode == "lag", mode == "bls")
+				lines = genE2E(r.Fork(), mode == "lag", mode == "bls" || mode == "histbls", mode == "hist" || mode == "histbls")
 			}
 		}
 		fmt.Println(strings.Join(lines, "\n"))
@@ -62,7 +62,7 @@ func debugScript(lines []string, drvPath string) {
 	var w *world
 	for _, l := range lines {
 		if strings.HasPrefix(l, "E2E") {
-			w, err = newE2EWorld(l)
+			w, err = newE2EWorld(l, lines...)
 			if err != nil {
 				fmt.Println(err)
 				return
@@ -74,7 +74,7 @@ func debugScript(lines []string, drvPath string) {
 	}
 	drv.Ask("R")
 	for _, l := range lines {
-		if strings.HasPrefix(l, "E2E") {
+		if strings.HasPrefix(l, "E2E") || strings.HasPrefix(l, "HS ") {
 			continue
 		}
 		if strings.HasPrefix(l, "U ") {
